@@ -8,8 +8,8 @@ CFGS = {
               ("c03-b", dict(WalSteps="TRUE", CrashAt=WAL, MaxStmts=4, MaxRows=2, MaxFlush=0, MaxCrash=1, Tables='{"t1"}', Vals="{1}"), None),
               # a flush between statements, then a statement cut in its log append (page LSNs on disk vs record LSNs)
               ("c03-d", dict(WalSteps="TRUE", CrashAt=WAL, MaxStmts=4, MaxRows=2, MaxFlush=1, MaxCrash=1, Tables='{"t1"}', Vals="{1}"), None)],
-    "thorough": [("c03-a", dict(WalSteps="TRUE", CrashAt=WAL, MaxStmts=4, MaxRows=3, MaxFlush=1, MaxCrash=1, Tables='{"t1"}'), 80000),
-                 ("c03-b", dict(WalSteps="TRUE", CrashAt=WAL, MaxStmts=5, MaxRows=4, MaxFlush=1, MaxCrash=2, Tables='{"t1"}', Vals="{1}"), 80000),
+    "thorough": [("c03-a", dict(EmitMod=2, WalSteps="TRUE", CrashAt=WAL, MaxStmts=4, MaxRows=3, MaxFlush=1, MaxCrash=1, Tables='{"t1"}'), 80000),
+                 ("c03-b", dict(EmitMod=2, WalSteps="TRUE", CrashAt=WAL, MaxStmts=5, MaxRows=4, MaxFlush=1, MaxCrash=2, Tables='{"t1"}', Vals="{1}"), 80000),
                  ("c03-c", dict(WalSteps="TRUE", CrashAt='{"wal", "idle"}', MaxStmts=4, MaxRows=2, MaxFlush=1, MaxCrash=2, Tables='{"t1"}', Vals="{1}"), 60000)],
 }
 
